@@ -92,6 +92,20 @@ def work(ctx, item):
                 ctx.violation(site, fp, 'default version is not the highest listed (%s)' % highest, {'kind': 'version', 'name': name, 'version': None})
     # selections
     zs = sorted(int(z) for z in full['elements'])
+    if len(zs) >= 3:
+        # a range written downwards denotes no element (range(hi, lo + 1) is empty): beside another item it adds nothing
+        from basis_set_exchange import lut
+        lo, hi = zs[1], zs[-1]
+        for sel in ('%d,%d-%d' % (zs[0], hi, lo), '%s,%s-%s' % (lut.element_sym_from_Z(zs[0]), lut.element_sym_from_Z(hi), lut.element_sym_from_Z(lo)), [zs[0], '%d-%d' % (hi, lo)]):
+            a = impl.call(bse.get_basis, disp, elements=sel, version=version)
+            b = impl.call(bse.get_basis, disp, elements=[zs[0]], version=version)
+            ctx.case((name, version, 'downward-range', repr(sel)), True, 'selection:downward-range')
+            if files is not None:
+                ctx.compare('get_basis_plain', norm_err(a), norm_err(ctx.model.call('get_basis_plain', files, disp, version, sel)),
+                            {'kind': 'selection', 'name': name, 'version': version, 'selection': sel})
+            if a != b:
+                ctx.violation(site, 'downward-range', 'elements=%r differs from elements=[%d]: a downward range selects elements' % (sel, zs[0]),
+                              {'kind': 'selection', 'name': name, 'version': version, 'selection': sel})
     for sel in ('0%d' % zs[0], '00%d' % zs[-1], ' 0%d ' % zs[0]):
         # a bare numeric string with leading zeros is the element of that number
         a = impl.call(bse.get_basis, disp, elements=sel, version=version)
@@ -159,6 +173,16 @@ def work(ctx, item):
         if a != ref:
             ctx.violation('api.get_references', 'name-spelling', 'get_references(%r) differs from get_references(%r)' % (sp, disp),
                           {'kind': 'spelling', 'name': name, 'version': version, 'spelling': sp})
+    if ref[0] == 'ok':
+        # a bare integer is an accepted notation of one element, for get_references as for get_basis; an undefined one is a KeyError
+        a = impl.call(bse.get_references, disp, elements=zs[0], version=version)
+        b = impl.call(bse.get_references, disp, elements=[zs[0]], version=version)
+        u = impl.call(bse.get_references, disp, elements=119 if 119 not in zs else 120, version=version)
+        ctx.case((name, version, 'refs-int'), True, 'references-selection:int')
+        if a != b or u != ('error', 'KeyError'):
+            ctx.violation('api.get_references', 'selection:int', 'get_references(elements=%d) gives %s, elements=[%d] gives %s; an undefined integer gives %s'
+                          % (zs[0], a[0] if a[0] == 'ok' else a[1], zs[0], b[0] if b[0] == 'ok' else b[1], u[0] if u[0] == 'ok' else u[1]),
+                          {'kind': 'selection', 'name': name, 'version': version, 'selection': zs[0]})
     if ref[0] == 'ok' and len(zs) > 1:
         sel, exp = selection_for(rng, zs)
         if all(str(z) in full['elements'] for z in exp):
